@@ -56,7 +56,10 @@ def register(op):
 
     def macro(spec):
         cs, k = spec
-        return MAC[k]([cplx(c) for c in cs])
+        members = [cplx(c) for c in cs]
+        if k % 2:                       # the subclass registry gets the members in the opposite order
+            members.reverse()
+        return MAC[k](members)
 
     def mkey(m):
         return [ckey(c) for c in m.canonical_form]
@@ -91,8 +94,18 @@ def register(op):
             k = kind[-1]
             a, b = rxn(sa, k), rxn(sb, k)
             ka, kb = rkey(a, k), rkey(b, k)
-        res = [ka, kb, ops(a, b), hash(a) == hash(b), a is b, len({a, b}),
+        # the operators are asked before any hash was taken, after one object was hashed (put into a set), and after
+        # both were: the answers must not depend on that
+        o1 = ops(a, b)
+        one = {a}
+        o2 = ops(a, b) + ops(b, a)
+        inset = b in one
+        o3 = ops(a, b)
+        if o1 != o3 or o2[:6] != o1 or o2[6] != o1[0] or inset != o1[0]:
+            raise RuntimeError(f"comparison depends on whether a hash was taken before: {o1} {o2} {o3} {inset}")
+        res = [ka, kb, o1, hash(a) == hash(b), a is b, len({a, b}),
                [x is a for x in sorted([a, b])], [x is a for x in sorted([b, a])]]
+        del one
         del a, b
         fresh()
         return res
@@ -221,6 +234,35 @@ def register(op):
         del cs
         fresh()
         return res
+
+    @op("c05_macro_after_turns")
+    def _(arg):
+        """a macrostate (and a reaction over it) stays the singleton of its members while a member is rotated: asking for the
+        same members again, in any order, after `turns` assignments yields the very same objects"""
+        cspecs, turns, k = arg
+        fresh()
+        cs = [cplx(s, name=f"X{i}") for i, s in enumerate(cspecs)]
+        m1 = MAC[k](list(cs))
+        r1 = RXN[0]([m1], [m1], "condensed")
+        for i, t in turns:
+            cs[i % len(cs)].turns = t
+        bad = []
+        try:
+            m2 = MAC[k](list(reversed(cs)))
+        except bc.SingletonError as e:
+            m2 = e.existing
+        if m2 is not m1:
+            bad.append("the same members, after a turns assignment, denote " + ("another macrostate" if m2 is not None else "a refused request"))
+        else:
+            try:
+                r2 = RXN[0]([m2], [m2], "condensed")
+            except bc.SingletonError as e:
+                r2 = e.existing
+            if r2 is not r1:
+                bad.append("the reaction over the macrostate is no longer found")
+        del m1, m2, r1, cs
+        fresh()
+        return bad
 
     @op("c11_reaction")
     def _(arg):
